@@ -110,6 +110,9 @@ class C12(Prop):
                 stmts.append("RETURN = events;")
             w0 = T0 + rng.choice([-5, 0, 1, 3]) * SEC + rng.choice([0, 1, 999, 500_000])
             w1 = w0 + rng.choice([0, 1, 2, 6, 20]) * SEC + rng.choice([0, 1, 1000])
+            if rng.random() < 0.08:
+                # "everything so far": a window that begins in the year 500 (years below 1000 have three-digit %Y on glibc)
+                w0 = storegen.FAR_BASES[0] + rng.choice([0, 999, 500_000])
             if rng.random() < 0.12:
                 # a window that reaches from the past far into the future, over events dated after today (legal: the
                 # library only warns about timestamps after 2100)
